@@ -6,3 +6,5 @@ import RedactVerif.Model.Escape
 import RedactVerif.Model.Buffer
 import RedactVerif.Model.Writer
 import RedactVerif.Model.Format
+import RedactVerif.Props.C01
+import RedactVerif.Props.C03
